@@ -340,6 +340,34 @@ static void limit_space (long start, long *pidx)
       one_case (text, sig, 0, 1);
     }
   }
+  /* lane-wise prefixes whose operands or results are wider than the largest variable size, and variable sizes that
+   * are not a power of two or are larger than 8 */
+  {
+    static const char *wops[][3] = { { "convslq", "8", "4" }, { "convsbw", "2", "1" }, { "addq", "8", "8" }, { "mulslq", "8", "4" }, { "convql", "4", "8" }, { "splatbl", "4", "1" }, { "mergelq", "8", "4" } };
+    static const int sizes[] = { 0, 3, 5, 6, 7, 12, 16, 32, 64, 255, 256, 65536 };
+    int m;
+    for (a = 0; a < 7; a++) for (m = 2; m <= 4; m *= 2) {
+      long idx = (*pidx)++;
+      char sig[64];
+      int ds = atoi (wops[a][1]) * m, ss = atoi (wops[a][2]) * m;
+      if (idx < start || (idx % cfg.nshards) != cfg.shard) continue;
+      if (!strcmp (wops[a][0], "mergelq")) sprintf (text, ".function wide\n.dest %d d\n.source %d s\n.source %d s2\nx%d %s d, s, s2\n", ds, ss, ss, m, wops[a][0]);
+      else if (!strcmp (wops[a][0], "addq") || !strcmp (wops[a][0], "mulslq")) sprintf (text, ".function wide\n.dest %d d\n.source %d s\nx%d %s d, s, s\n", ds, ss, m, wops[a][0]);
+      else sprintf (text, ".function wide\n.dest %d d\n.source %d s\nx%d %s d, s\n", ds, ss, m, wops[a][0]);
+      snprintf (sig, sizeof (sig), "prefix-size=x%d/%s", m, wops[a][0]);
+      { char k_[260]; snprintf (k_, sizeof k_, "C14|crash|%s", sig); v_case (idx, k_, sig); }
+      one_case (text, sig, 0, 1);
+    }
+    for (a = 0; a < 12; a++) for (c = 0; c < 3; c++) {
+      long idx = (*pidx)++;
+      char sig[64];
+      if (idx < start || (idx % cfg.nshards) != cfg.shard) continue;
+      sprintf (text, ".function odd\n.dest %d d\n.source %d s\n.temp %d t\n%s t, s\n%s d, t\n", c == 0 ? sizes[a] : 2, c == 1 ? sizes[a] : 2, c == 2 ? sizes[a] : 2, "copyw", "copyw");
+      snprintf (sig, sizeof (sig), "variable-size=%d/%d", sizes[a], c);
+      { char k_[260]; snprintf (k_, sizeof k_, "C14|crash|%s", sig); v_case (idx, k_, sig); }
+      one_case (text, sig, 0, 1);
+    }
+  }
   /* many errors in one file */
   for (a = 0; a < 7; a++) {
     long idx = (*pidx)++;
